@@ -21,6 +21,7 @@ from .c07 import _site
 PROP = 'C12'
 LEVEL = 'exploration'
 BATCH = 200
+RUN_TIMEOUT = 5       # wall-clock watchdog ('never a hang'): an ordinary run takes milliseconds
 TIERS = {
     'quick': {'runs': 700000, 'budget': 35},
     'thorough': {'runs': 5_000_000, 'budget': 540},
@@ -58,7 +59,7 @@ def mutate_mp(rng, body, boundary, layout):
     b2 = b'--' + boundary.encode()
     ops = ['drop_delim', 'dup_delim', 'no_colon', 'empty_value', 'no_name', 'non_utf8_header', 'non_utf8_text',
            'no_terminator', 'garbage_after_close', 'close_early', 'bare_lf', 'flip', 'delete_range', 'insert_random',
-           'truncate', 'cr_after_boundary', 'header_only', 'huge_header', 'dup_terminator', 'no_close']
+           'truncate', 'cr_after_boundary', 'header_only', 'huge_header', 'dup_terminator', 'no_close', 'unclosed_quote']
     op = rng.choice(ops)
     n = len(body)
     occ = []
@@ -130,6 +131,12 @@ def mutate_mp(rng, body, boundary, layout):
     if op == 'dup_terminator' and layout:
         hs, he, ds, de = rng.choice(layout)
         return body[:ds] + b'\r\n\r\n' + body[ds:], op
+    if op == 'unclosed_quote' and layout:
+        # a long quoted parameter value whose closing quote never comes (backslashes and quotes inside)
+        hs, he, ds, de = rng.choice(layout)
+        filler = rng.choice([b'a', b'a\\', b'\\"', b'ab '])
+        val = (filler * 80)[:rng.choice([20, 33, 48, 64])]
+        return body[:hs] + b'Content-Disposition: form-data; name="n"; filename="' + val + body[he:], op
     if op == 'no_close':
         j = body.rfind(b2 + b'--')
         if j >= 0:
@@ -201,6 +208,11 @@ def _gen_case(rng, tier):
     else:
         ct = rng.choice([None, 'application/octet-stream', 'application/json', 'application/x-www-form-urlencoded',
                          'multipart/form-data; boundary=zz', 'multipart/form-data'])
+    if ct and rng.random() < 0.12:
+        # hostile / sloppy media-type parameters (unknown charset labels, odd quoting, several parameters)
+        ct = ct + rng.choice(['; charset=utf8mb4', '; charset=x-user-defined', '; charset=base64', '; charset=',
+                              '; charset="utf-8"', '; charset=latin-1', '; CHARSET=UTF-8', '; charset=utf-16',
+                              '; foo=bar; charset=nope', ';', '; ;', '; charset', '; boundary=other'])
     case['ctype'] = ct
     case['boundary'] = boundary
     case['body'] = hx(body)
